@@ -160,7 +160,7 @@ func (g *gen) genStmt() (*Node, bool) {
 	if g.f.inInit {
 		w[6], w[8], w[9] = 0, 0, 0
 	}
-	if g.f.noPanic {
+	if g.f.noPanic || g.f.noSoft {
 		w[9] = 0
 	}
 	if g.f.pure || g.f.inLambda {
@@ -286,7 +286,7 @@ func (g *gen) genOfFresh(typ string, d int) (ex, bool) {
 
 func (g *gen) noteExpr(e ex) {
 	if e.pan {
-		g.f.sig.safe = false
+		g.f.sig.soft = true
 	}
 	if e.hard {
 		g.f.sig.hard = true
@@ -435,7 +435,7 @@ func (g *gen) stAssign() *Node {
 			if e.konst && e.lo <= 0 && e.hi >= 0 {
 				e = g.nonZero(1)
 			} else if e.lo <= 0 && e.hi >= 0 {
-				e.pan, e.hard = true, true
+				e.hard = true
 			}
 		} else {
 			e = g.nonZero(1)
@@ -509,7 +509,7 @@ func (g *gen) stSliceElem() *Node {
 		if !g.mayPanic() {
 			return nil
 		}
-		g.f.sig.safe = false
+		g.f.sig.soft = true
 	}
 	t := &Node{K: "index", A: []*Node{vr(v.name), i.n}}
 	g.noteWrite(t)
@@ -1120,7 +1120,7 @@ func (g *gen) localOwned(e ex) bool {
 }
 
 func (g *gen) stPanic() *Node {
-	g.f.sig.safe = false
+	g.f.sig.soft = true
 	g.mark("panic")
 	if g.chance(50) {
 		return &Node{K: "panic", A: []*Node{slitS([]string{"boom", "bad", ""}[g.n(3, "pm")])}}
@@ -1166,9 +1166,6 @@ func (g *gen) stCall() *Node {
 		g.mark("recursion")
 	} else {
 		g.noteCall(f)
-		if !f.safe {
-			g.f.sig.safe = false
-		}
 		if !f.pure {
 			g.f.sig.pure = false
 			g.mark("effect-call")
@@ -1241,7 +1238,7 @@ func (g *gen) stDefer() *Node {
 	}
 	g.mark("defer")
 	g.f.sig.pure = false
-	if g.chance(40) {
+	if g.chance(40) && !(g.f.recovers && !g.on(kDeferSwallow)) {
 		// deferred call of a named function
 		var cs []*fsig
 		for _, f := range g.funcs {
@@ -1270,7 +1267,7 @@ func (g *gen) stDefer() *Node {
 	// function literal: closures are not supported by the dialect, so the body sees globals only
 	outer := g.f
 	lf := &fctx{sig: outer.sig, budget: outer.budget, cost: outer.cost, mult: outer.mult, inLambda: true,
-		hasDefer: false, protected: outer.protected, noPanic: outer.noPanic, nameCtr: outer.nameCtr + 100, labelCtr: outer.labelCtr + 100}
+		hasDefer: false, protected: outer.protected, noPanic: outer.noPanic, noSoft: outer.noSoft, nameCtr: outer.nameCtr + 100, labelCtr: outer.labelCtr + 100}
 	g.f = lf
 	g.push()
 	var body []*Node
